@@ -2107,7 +2107,7 @@ def workload_checks(ctx, pe, aes, world, docs, base, tmproot, special, aes0=Fals
             for t in range(nthreads):
                 w = list(fast)
                 rng.shuffle(w)
-                w = w[: ctx.n(24, len(fast))]
+                w = w[: ctx.n(14, len(fast))]
                 # PDFs in every thread (the patched critical section), one slow AES document per round
                 w += [d for d in fast if d.endswith(".pdf")][:4]
                 if "enc_aes-128" in special and t < 4:
